@@ -144,8 +144,8 @@ func buildThrift(i, shape int) msg {
 
 func buildTars(i, shape int) msg {
 	n := bodyLen(shape, i)
-	if n > 60 {
-		n = 60 // the tars decoder of the pinned tree reads the 4 length bytes as fields; only short packets decode
+	if n > 400 {
+		n = 400 // tars keeps to moderate packets (its SBuffer is encoded byte by byte)
 	}
 	sb := []int8{}
 	for _, c := range body(i, n) {
